@@ -564,6 +564,7 @@ def build(tier):
         us += vec_ctor_units(tier, D, Sx)
         us += mat_ctor_units(tier, ['float'], ['double', 'int'], shapes=SHAPES)
         us.append(qua_ctor_unit(tier, ['float', 'double'], ['float', 'double', 'int']))
+        us.append(qua_ctor_unit(tier, ['float', 'double'], ['float', 'double'], cfg_name='_wxyz', defines=['GLM_FORCE_QUAT_DATA_WXYZ']))      # the constructors have a separate member-init list per memory order
         us += simd_ctor_units('_sse2', ['-msse2']) + simd_ctor_units('_avx2', ['-mavx2'])
     else:
         for nm, fl in (('_sse2', ['-msse2']), ('_sse42', ['-msse4.2']), ('_avx', ['-mavx']), ('_avx2', ['-mavx2'])): us += simd_ctor_units(nm, fl)
